@@ -4,7 +4,7 @@ from . import core, conn, hist
 RULE = ("every ordered pair (A, B) of distinct commands from the pool, session-less (all commands allowed by the simulated BMC) and "
         "inside a session, under three reply-misdelivery patterns: B's first read returns a duplicate of A's reply; A's reply is "
         "delayed and arrives at B's first read (the duplicate produced by a retransmission after a slow reply); the delay persists "
-        "over a third command; a duplicate of a REFUSAL (permanent non-zero code) of A arrives at B; three stale replies in a row; session-less additionally: B answered node busy, then a stray duplicate of A's reply, then silence "
+        "over a third command; a duplicate of a REFUSAL (permanent non-zero code) of A arrives at B; three stale replies in a row; a run of 4..12 stale replies; session-less additionally: B answered node busy, then a stray duplicate of A's reply, then silence "
         "until B's context expires.  predicate: the value each call returns is the decoding of the BMC's own answer to *that* call "
         "(completion code and response data logged by the BMC), never of another command's reply; tie: the Coq retry model "
         "reproduces transmissions and results.  distinct by (A, B, pattern, connection kind)")
@@ -62,7 +62,7 @@ def run(ch, build):
         pairs = pairs + special
         for k, (a, b) in enumerate(pairs):
             su = hist.SUITES[k % 9]
-            for pattern in ("dup", "delay", "delay3", "errstray", "threestrays") + (("busystray",) if not session else ("nobody-lost",)):
+            for pattern in ("dup", "delay", "delay3", "errstray", "threestrays", "manystrays") + (("busystray",) if not session else ("nobody-lost",)):
                 scn = {"bmc": conn.default_bmc(seed=k + 1, suites=[[100, su[0], su[1], su[2]]], loose=True), "timeout_ms": 40, "steps": []}
                 cn = "session" if session else "sessionless"
                 if session:
@@ -83,6 +83,13 @@ def run(ch, build):
                     scn["steps"] += [{"op": "cmd", "conn": cn, "cmd": a, "script": ["ok"]},
                                      {"op": "cmd", "conn": cn, "cmd": b, "script": ["dupstep", "dupstep", "dupstep", "ok"]},
                                      {"op": "cmd", "conn": cn, "cmd": c3, "script": ["dupstep", "ok"]}]
+                elif pattern == "manystrays":
+                    # a longer run of stale replies (4..12) before B's own answer: however many were skipped, the next one
+                    # is still not B's
+                    nstr = rng.randrange(4, 13)
+                    scn["steps"] += [{"op": "cmd", "conn": cn, "cmd": a, "script": ["ok"]},
+                                     {"op": "cmd", "conn": cn, "cmd": b, "script": ["dupstep"] * nstr + ["ok"]},
+                                     {"op": "cmd", "conn": cn, "cmd": c3, "script": ["ok"]}]
                 elif pattern == "nobody-lost":
                     # inside a session: the reply to a command WITHOUT a response body (Chassis Control, a caller-defined
                     # command) never arrives - there is no result then, least of all "completion code 00h"
